@@ -4,7 +4,7 @@
    environment a rule-abiding server and an adversarial scheduler (callers, server timing,
    notifications, select! choice, timer expiry).  [reply_fn] is the server's reply to a request:
    universally quantified. *)
-From MPD Require Import Bytes Tables BuilderModel LoopModel LoopProofs LoopSpec LoopSpecProofs ServerModel DriverLoop LoopRefine LoopRefineProofs.
+From MPD Require Import Bytes Tables BuilderModel LoopModel LoopProofs LoopSpec LoopSpecProofs ServerModel DriverLoop LoopRefine LoopRefineProofs LoopCancel LoopCancelProofs.
 Open Scope N_scope.
 
 (* for EVERY schedule the server never receives anything but noidle while it waits in idle *)
@@ -119,6 +119,16 @@ Proof. exact exec_no_panic. Qed.
 Example c05_exec_fragment_inhabited : in_fragment ex_cf ex_labs ex_gls.
 Proof. exact ex_fragment. Qed.
 
+(* callers giving up (x<id>) do not change the session: label by label the client writes the same bytes as in the run in which every
+   x<id> is replaced by a no-op, and what the server has not yet read and the server's state (including its violation flag) end up the
+   same — for every label list without h / a and with distinct request ids, faults included (Props/C01.v c01_cancel_erasure).  In
+   particular a request whose caller has gone is still written and answered: the session stays in step with the server. *)
+Theorem c05_exec_cancel_wire : forall cf ls, cancel_ok [] ls = true ->
+  map g_w (snd (xrun (xinit cf) ls)) = map g_w (snd (xrun (xinit cf) (map erase_label ls))) /\
+  x_c2s (fst (xrun (xinit cf) ls)) = x_c2s (fst (xrun (xinit cf) (map erase_label ls))) /\
+  x_srv (fst (xrun (xinit cf) ls)) = x_srv (fst (xrun (xinit cf) (map erase_label ls))).
+Proof. exact exec_cancel_w. Qed.
+
 Print Assumptions c05_legal_session.
 Print Assumptions c05_idle_only_noidle.
 Print Assumptions c05_one_outstanding.
@@ -132,3 +142,4 @@ Print Assumptions c05_exec_legal_session.
 Print Assumptions c05_exec_wire.
 Print Assumptions c05_exec_trace_text.
 Print Assumptions c05_exec_no_panic.
+Print Assumptions c05_exec_cancel_wire.
